@@ -14,7 +14,7 @@ RULE = ("location tables: one case = one 3.11+ line table; TLC re-reads it entry
 def exc_gen(d, rep, maxlen, rich):
     cfg = d / "exccfg.json"
     cfg.write_text(json.dumps({"maxlen": maxlen, "rich": rich, "export": 1}))
-    r = lib.tlc("ExcTableMC", workers=1, timeout=3000, env={"GEN_CFG": cfg}, tag="excmc")
+    r = lib.tlc("ExcTableMC", workers=1, coverage=True, timeout=3000, env={"GEN_CFG": cfg}, tag="excmc")
     lib.require_clean(r, "ExcTableMC")
     rep.mc(r, "ExcTableMC(maxlen=%d rich=%d)" % (maxlen, rich))
     seen, beh = set(), []
